@@ -57,6 +57,7 @@ type l2op struct {
 	B     int  `json:"b,omitempty"`
 	Days  int  `json:"days,omitempty"`
 	Merge bool `json:"merge,omitempty"`
+	Again bool `json:"again,omitempty"` // same resolved range as the previous pass
 	// outputs
 	Res  string   `json:"res"`
 	Out  []string `json:"out,omitempty"`
@@ -66,7 +67,7 @@ type l2op struct {
 type l2file struct {
 	Chunk int        `json:"chunk"`
 	Size  int64      `json:"size"`
-	Recs  [][3]string `json:"recs"` // offset, keyhex, ver
+	Recs  [][4]string `json:"recs"` // offset, keyhex, ver, ts
 }
 
 type l2dir struct {
@@ -85,21 +86,22 @@ type l2Case struct {
 }
 
 // independent record scanner (stdlib CRC, no store code)
-func scanDataFile(path string) (recs [][3]string, size int64) {
+func scanDataFile(path string) (recs [][4]string, size int64) {
 	data, err := ioutil.ReadFile(path)
 	if err != nil {
 		return nil, -1
 	}
 	size = int64(len(data))
-	recs = [][3]string{}
+	recs = [][4]string{}
 	for off := 0; off+24 <= len(data); {
 		crc := binary.LittleEndian.Uint32(data[off:])
+		ts := binary.LittleEndian.Uint32(data[off+4:])
 		ver := int32(binary.LittleEndian.Uint32(data[off+12:]))
 		ksz := int(binary.LittleEndian.Uint32(data[off+16:]))
 		vsz := int(binary.LittleEndian.Uint32(data[off+20:]))
 		if ksz >= 1 && ksz <= 250 && vsz >= 0 && vsz <= (64<<20) && off+24+ksz+vsz <= len(data) &&
 			crc32.ChecksumIEEE(data[off+4:off+24+ksz+vsz]) == crc {
-			recs = append(recs, [3]string{strconv.Itoa(off), hex.EncodeToString(data[off+24 : off+24+ksz]), strconv.Itoa(int(ver))})
+			recs = append(recs, [4]string{strconv.Itoa(off), hex.EncodeToString(data[off+24 : off+24+ksz]), strconv.Itoa(int(ver)), strconv.FormatUint(uint64(ts), 10)})
 			off += (24 + ksz + vsz + 255) / 256 * 256
 		} else {
 			off += 256
@@ -328,7 +330,7 @@ func (r *l2runner) exec(op *l2op) {
 		}
 		op.Dir = snapshotDir(bh)
 	case "CR":
-		b, e, err := r.hs.VerifGCRange(r.cfg.Bucket, op.A, op.B, op.Days)
+		b, e, err := r.hs.GC(r.cfg.Bucket, op.A, op.B, op.Days, false, true) // pretend mode of the public entry point
 		if err != nil {
 			op.Res = "ERR"
 		} else {
@@ -343,6 +345,7 @@ func (r *l2runner) exec(op *l2op) {
 		op.Dir = snapshotDir(bucketHome(r.home, r.cfg.NB, r.cfg.Bucket))
 	case "X":
 		op.Res = "OK"
+		op.Out = []string{strconv.Itoa(r.hs.VerifHead(r.cfg.Bucket))}
 		op.Dir = snapshotDir(bucketHome(r.home, r.cfg.NB, r.cfg.Bucket))
 	}
 }
@@ -509,6 +512,9 @@ func init() {
 				op := l2op{K: hex.EncodeToString(keys[j])}
 				p := r.Intn(100)
 				restartP, gcP := 6, 0
+				if mode == "restart" {
+					restartP = 11
+				}
 				if mode == "gc" || mode == "collide" {
 					gcP = 7
 				}
@@ -523,7 +529,7 @@ func init() {
 					if numeric[j] && r.Chance(70) {
 						op.Flag = 0x204
 					}
-					if r.Chance(25) {
+					if r.Chance(25) && mode != "collide" { // version arithmetic of colliding keys is out of scope (C13)
 						op.Rev = r.Intn(12)
 					}
 					op.TS = baseTS + uint32(n)
@@ -581,11 +587,17 @@ func init() {
 				case p < 89+restartP+gcP:
 					// resolve a range with the real range check, then run the pass
 					run.hs.VerifFlush()
-					cr := l2op{Op: "CR", A: r.Intn(8) - 1, B: r.Intn(8) - 1, Days: []int{-1, 1, 1, 2, 5, 40}[r.Intn(6)]}
+					cr := l2op{Op: "CR", A: r.Intn(10) - 2, B: r.Intn(10) - 2, Days: []int{-1, 1, 1, 2, 5, 40}[r.Intn(6)]}
 					fl := l2op{Op: "F", Res: "OK"}
 					c.Ops = append(c.Ops, fl)
+					x0 := l2op{Op: "X"}
+					run.exec(&x0)
+					c.Ops = append(c.Ops, x0)
 					run.exec(&cr)
 					c.Ops = append(c.Ops, cr)
+					xb := l2op{Op: "X"}
+					run.exec(&xb)
+					c.Ops = append(c.Ops, xb)
 					if cr.Res != "RANGE" {
 						continue
 					}
@@ -594,6 +606,26 @@ func init() {
 					op.A, _ = strconv.Atoi(cr.Out[0])
 					op.B, _ = strconv.Atoi(cr.Out[1])
 					op.Merge = r.Chance(40)
+					run.exec(&op)
+					c.Ops = append(c.Ops, op)
+					for _, k := range keys { // where is every key now?
+						m := l2op{Op: "M", K: hex.EncodeToString(k)}
+						run.exec(&m)
+						c.Ops = append(c.Ops, m)
+					}
+					if r.Chance(35) { // the same pass again must release nothing
+						cr2 := l2op{Op: "CR", A: cr.A, B: cr.B, Days: cr.Days}
+						run.exec(&cr2)
+						c.Ops = append(c.Ops, cr2)
+						if cr2.Res == "RANGE" {
+							op2 := l2op{Op: "C", Merge: op.Merge, Again: cr2.Out[0] == cr.Out[0] && cr2.Out[1] == cr.Out[1]}
+							op2.A, _ = strconv.Atoi(cr2.Out[0])
+							op2.B, _ = strconv.Atoi(cr2.Out[1])
+							run.exec(&op2)
+							c.Ops = append(c.Ops, op2)
+						}
+					}
+					continue
 				default:
 					op.Op = "X"
 					op.K = ""
